@@ -268,3 +268,54 @@ def hash_seed(sx, B):
                      lambda: "input %d differs between PYTHONHASHSEED=%s and %s:\n%s\n%s" % (i, B["seeds"][0], seed, str(x)[:300], str(y)[:300]))
     sx.claim(all(r[0] != "EXC" for res in results for r in res), "no input crashes under any hash seed",
              lambda: repr([[r for r in res if r[0] == "EXC"] for res in results]))
+
+
+@condition("C13.json_listing_order",
+           anchors=["polyply.src.simple_seq_parsers:parse_json", "polyply.src.meta_molecule:MetaMolecule.from_sequence_file"],
+           rejects=(), selector_only=True, must_cover=["without resids", "with resids"],
+           outside=["graphs of more than 4 residues"],
+           bounds={"quick": dict(nmax=4), "thorough": dict(nmax=4)})
+def json_listing_order(sx, B):
+    """Two .json sequence files that describe the same residue graph but list nodes and edges in another order (with and without
+    residue ids in the file) are read by the real reader and run through the pipeline: the residue ids, residue names and the
+    generated molecule are the same."""
+    import json
+    n = int(sx.int("n", 2, B["nmax"]))
+    shape = sx.sel("shape", sorted(GRAPHS[n]))
+    names = [sx.sel("res%d" % i, ["A", "B"]) for i in range(n)]
+    with_resids = sx.sel("file_has_resids", [False, True])
+    order = sx.sel("node_listing", list(itertools.permutations(range(n)))[:6])
+    eorder = sx.sel("edge_listing", ["as given", "reversed and flipped"])
+    sx.cover("with resids" if with_resids else "without resids")
+    specs = {"A": simple_block("A", 2, multi=False), "B": simple_block("B", 3, multi=True)}
+    ltexts = [LINKS[0].format(la=specs[x].atoms[-1][0], fa=specs[y].atoms[0][0]) for x in "AB" for y in "AB"]
+
+    def run(node_order, flip):
+        edges = GRAPHS[n][shape]
+        if flip:
+            edges = [(b, a) for a, b in edges][::-1]
+        nodes = []
+        for i in node_order:
+            nd = {"id": i, "resname": names[i]}
+            if with_resids:
+                nd["resid"] = i + 1
+            nodes.append(nd)
+        g = {"directed": False, "multigraph": False, "graph": {}, "nodes": nodes,
+             "links": [{"source": a, "target": b} for a, b in edges], "edges": [{"source": a, "target": b} for a, b in edges]}
+        d = tempfile.mkdtemp(prefix="pverif_", dir=os.environ.get("TMPDIR"))
+        try:
+            (Path(d) / "seq.json").write_text(json.dumps(g))
+            ff = parse_ff([("ff", block_text_ff(specs["A"])), ("itp", block_text_itp(specs["B"]))] + [("ff", t) for t in ltexts])
+            from polyply.src.meta_molecule import MetaMolecule
+            meta = MetaMolecule.from_sequence_file(ff, Path(d) / "seq.json", "x")
+        finally:
+            shutil.rmtree(d, ignore_errors=True)
+        ids = sorted((k, meta.nodes[k]["resid"], meta.nodes[k]["resname"]) for k in meta.nodes)
+        return ids, pipeline(ff, meta)
+    ids1, out1 = run(list(range(n)), False)
+    ids2, out2 = run(list(order), eorder != "as given")
+    sx.claim(ids1 == [(i, i + 1, names[i]) for i in range(n)], "residue ids are the ones in the file, or node key + 1 when the file has none",
+             lambda: repr(ids1))
+    sx.claim(ids1 == ids2, "residue ids and names do not depend on the order in which the file lists the nodes",
+             lambda: "listing %r: %r vs %r" % (order, ids1, ids2))
+    sx.claim(out1 == out2, "the generated molecule does not depend on the listing order of nodes and edges in the file")
